@@ -63,6 +63,10 @@ fn build(case: &Value, rng: &mut impl RngCore) -> Option<Built> {
         .algorithm(coset::iana::Algorithm::ES256);
     // an EC2 key may carry the optional common parameters of a COSE key
     let key = match case["key"].as_str().unwrap_or("plain") {
+        // EC2 keys on the other registered curves (coordinates of 48 / 66 bytes)
+        "p384" => coset::CoseKeyBuilder::new_ec2_pub_key(coset::iana::EllipticCurve::P_384, rnd(rng, 48), rnd(rng, 48)).algorithm(coset::iana::Algorithm::ES384),
+        "p521" => coset::CoseKeyBuilder::new_ec2_pub_key(coset::iana::EllipticCurve::P_521, rnd(rng, 66), rnd(rng, 66)).algorithm(coset::iana::Algorithm::ES512),
+        "k256" => coset::CoseKeyBuilder::new_ec2_pub_key(coset::iana::EllipticCurve::Secp256k1, rnd(rng, 32), rnd(rng, 32)).algorithm(coset::iana::Algorithm::ES256K),
         "kid" => key.key_id(rnd(rng, 9)),
         "ops" => key.add_key_op(coset::iana::KeyOperation::Verify),
         "iv" => key.base_iv(rnd(rng, 12)),
@@ -155,8 +159,9 @@ pub fn main(args: &Args) {
                 // ... and, member for member, the key as given (optional common parameters included)
                 let whole = <coset::CoseKey as coset::CborSerializable>::from_slice(&at.cose_bytes).map(|k| k == b.key).unwrap_or(false);
                 let plain = case["key"].as_str().unwrap_or("plain") == "plain";
-                e["keyok"] = json!(whole && want.map(|c| c.x == x && c.y == y && c.kty == Some(2) && c.alg == Some(-7) && c.crv == Some(1)
-                    && (!plain || c.labels == vec![-3, -2, -1, 1, 3])).unwrap_or(false));
+                let p256 = !["p384", "p521", "k256"].contains(&case["key"].as_str().unwrap_or("plain"));
+                e["keyok"] = json!(whole && want.map(|c| c.x == x && c.y == y && c.kty == Some(2)
+                    && (!p256 || (c.alg == Some(-7) && c.crv == Some(1))) && (!plain || c.labels == vec![-3, -2, -1, 1, 3])).unwrap_or(false));
             }
             if let Some(ext) = &ad.ext {
                 e["extlen"] = json!(cbor_len(ext));
